@@ -40,6 +40,7 @@ func TestC02(t *testing.T) {
 func TestC03(t *testing.T) {
 	cfg := baseCfg()
 	cfg.Bufs = []int{0, 1, 2, 7, 64, 4096}
+	cfg.PPause = 1
 	cfg.MaxAdds = 6
 	cfg.MaxNames = 4
 	cfg.W = map[string]int{
